@@ -686,6 +686,11 @@ func (f *FuncCtx) loopEnv(st *State, extra map[string]Term, pos token.Pos) *CEnv
 	for k, v := range f.names0 {
 		names[k] = v
 	}
+	for ord, g := range f.loopGhosts {
+		for k, v := range g {
+			names[fmt.Sprintf("%s%d", k, ord)] = v // e.g. $i1, $keys1: ghosts of loop 1, visible in nested loops' invariants
+		}
+	}
 	for k, v := range extra {
 		names[k] = v
 	}
@@ -919,6 +924,11 @@ func (f *FuncCtx) rangeStmt(st *State, x *ast.RangeStmt, label string) *Flow {
 	f.havocTargets(head, lt)
 	idx := f.fresh("rng_i", SInt)
 	extra["$i"] = Term{S: idx, Sort: SInt}
+	if f.loopGhosts == nil {
+		f.loopGhosts = map[int]map[string]Term{}
+	}
+	f.loopGhosts[ord] = extra
+	defer delete(f.loopGhosts, ord)
 	head.assume("(and (<= 0 " + idx + ") (<= " + idx + " " + n.S + "))")
 	f.assumeInvs(head, ord, extra, x.Pos())
 	// exit
